@@ -15,7 +15,7 @@ src: mem.c
 enforce: memrec_find_var
 backend: sat
 loops: 1
-timeout: 280
+timeout: 600
 mem: 14
 */
 /*@unit
@@ -25,7 +25,7 @@ debug: 5
 src: mem.c
 enforce: memrec_add_var
 backend: sat
-timeout: 280
+timeout: 600
 mem: 14
 */
 /*@unit
@@ -35,7 +35,7 @@ debug: 5
 src: mem.c
 enforce: memrec_add_var
 backend: sat
-timeout: 280
+timeout: 600
 mem: 14
 */
 /*@unit
@@ -45,7 +45,7 @@ debug: 5
 src: mem.c
 enforce: memrec_add_var
 backend: sat
-timeout: 280
+timeout: 600
 mem: 14
 */
 /*@unit
@@ -124,35 +124,35 @@ timeout: 280
 */
 /*@unit
 name: table.chg_var.shape
-define: U_CHG, MEM_ENF_CHG, MEM_PART=1, VERIF_MEMHASH_STRNCPY_MODEL
+define: U_CHG, MEM_ENF_CHG, MEM_PART=1, VERIF_MEMHASH_STRNCPY_MODEL, VERIF_MEMHASH_DIAG_MACROS
 debug: 5
 src: mem.c
 enforce: memrec_chg_var
 backend: sat
 loops: 1
-timeout: 280
+timeout: 600
 mem: 14
 */
 /*@unit
 name: table.chg_var.records
-define: U_CHG, MEM_ENF_CHG, MEM_PART=2, VERIF_MEMHASH_STRNCPY_MODEL
+define: U_CHG, MEM_ENF_CHG, MEM_PART=2, VERIF_MEMHASH_STRNCPY_MODEL, VERIF_MEMHASH_DIAG_MACROS
 debug: 5
 src: mem.c
 enforce: memrec_chg_var
 backend: sat
 loops: 1
-timeout: 280
+timeout: 600
 mem: 14
 */
 /*@unit
 name: table.chg_var.nodup
-define: U_CHG, MEM_ENF_CHG, MEM_PART=3, VERIF_MEMHASH_STRNCPY_MODEL
+define: U_CHG, MEM_ENF_CHG, MEM_PART=3, VERIF_MEMHASH_STRNCPY_MODEL, VERIF_MEMHASH_DIAG_MACROS
 debug: 5
 src: mem.c
 enforce: memrec_chg_var
 backend: sat
 loops: 1
-timeout: 280
+timeout: 600
 mem: 14
 */
 #include "vprelude.h"
